@@ -277,6 +277,18 @@ def run_case(ctx, cid, P):
             ends[side].recordSize = v
             recsize[side] = v
             ctx.cell("limitcell", "rs=%d" % v)
+    # every alignment of (payload + MAC) against the cipher block: the
+    # padding takes each value 0..block-1 (and the full block) once
+    if su.cipher_kind == "cbc":
+        for side in ("c", "s"):
+            for n in range(1, 2 * block + 2):
+                if not ok or ctx.expired():
+                    break
+                ok = do_write(side, n)
+                if ok and (n % 3 == 0 or n == 2 * block + 1):
+                    while ok and fifo[side].pending:
+                        ok = do_read(peer[side], None, 1)
+            ctx.count("alignment_sweeps")
     # drain
     for side in ("c", "s"):
         f = fifo[peer[side]]
